@@ -930,9 +930,8 @@ pub fn check_c08(prop: &str, tier: &str) -> i32 {
 // =======================================================================================
 // C12
 
-pub fn check_c12(prop: &str, tier: &str) -> i32 {
+pub fn part_c12(run: &mut Run, tier: &str) {
     let thorough = tier == "thorough";
-    let mut run = Run::new(prop, tier, "fault_enumeration");
     let mut b = w1();
     let cc = &b.cc;
     let k_auth = cc.generate_user_secret_key(&mut b.msk, &p("A::x")).unwrap();
@@ -960,7 +959,7 @@ pub fn check_c12(prop: &str, tier: &str) -> i32 {
         let ptx: Vec<u8> = (0..n).map(|i| (i * 7 + 1) as u8).collect();
         for pol in ["A::x", "A::x || A::y && H::hi"] {
             let Ok(ct) = PkeAc::<KL, E>::encrypt(cc, &mpk0, &p(pol), &ptx) else {
-                fail(&mut run, "C12.a", format!("encrypt({n} bytes, {pol}) failed"));
+                fail(run, "C12.a", format!("encrypt({n} bytes, {pol}) failed"));
                 continue;
             };
             for (kn, k, want) in [("authorised", &k_auth, true), ("authorised through an older revision", &k_old, true), ("unauthorised", &k_unauth, false)] {
@@ -968,22 +967,22 @@ pub fn check_c12(prop: &str, tier: &str) -> i32 {
                 match catch_unwind(AssertUnwindSafe(|| PkeAc::<KL, E>::decrypt(cc, k, &ct))) {
                     Ok(Ok(Some(x))) => {
                         if !want {
-                            fail(&mut run, "C12.b", format!("PKE {n} bytes / {pol}: the {kn} key decrypts"));
+                            fail(run, "C12.b", format!("PKE {n} bytes / {pol}: the {kn} key decrypts"));
                         } else if *x != ptx {
-                            fail(&mut run, "C12.a", format!("PKE {n} bytes / {pol}: the {kn} key gets a different plaintext"));
+                            fail(run, "C12.a", format!("PKE {n} bytes / {pol}: the {kn} key gets a different plaintext"));
                         } else {
                             nontrivial += 1;
                         }
                     }
                     Ok(Ok(None)) => {
                         if want {
-                            fail(&mut run, "C12.a", format!("PKE {n} bytes / {pol}: the {kn} key gets 'not authorised'"));
+                            fail(run, "C12.a", format!("PKE {n} bytes / {pol}: the {kn} key gets 'not authorised'"));
                         } else {
                             nontrivial += 1;
                         }
                     }
-                    Ok(Err(e)) => fail(&mut run, if want { "C12.a" } else { "C12.b" }, format!("PKE {n} bytes / {pol}: the {kn} key gets Err({e})")),
-                    Err(_) => fail(&mut run, "C12.d", format!("PKE {n} bytes / {pol}: decrypt panicked with the {kn} key")),
+                    Ok(Err(e)) => fail(run, if want { "C12.a" } else { "C12.b" }, format!("PKE {n} bytes / {pol}: the {kn} key gets Err({e})")),
+                    Err(_) => fail(run, "C12.d", format!("PKE {n} bytes / {pol}: decrypt panicked with the {kn} key")),
                 }
             }
             // truncations and alterations
@@ -995,9 +994,9 @@ pub fn check_c12(prop: &str, tier: &str) -> i32 {
                     cases += 1;
                     let m = (ct.0.clone(), body[..c].to_vec());
                     match catch_unwind(AssertUnwindSafe(|| PkeAc::<KL, E>::decrypt(cc, &k_auth, &m))) {
-                        Ok(Ok(Some(_))) | Ok(Ok(None)) => fail(&mut run, "C12.d", format!("PKE {n} bytes truncated to {c} of {}: not an error", body.len())),
+                        Ok(Ok(Some(_))) | Ok(Ok(None)) => fail(run, "C12.d", format!("PKE {n} bytes truncated to {c} of {}: not an error", body.len())),
                         Ok(Err(_)) => nontrivial += 1,
-                        Err(_) => fail(&mut run, "C12.d", format!("PKE {n} bytes truncated to {c}: panic")),
+                        Err(_) => fail(run, "C12.d", format!("PKE {n} bytes truncated to {c}: panic")),
                     }
                 }
                 let positions: Vec<usize> = if full { (0..body.len()).collect() } else { (0..28).chain(body.len() - 32..body.len()).collect() };
@@ -1008,9 +1007,9 @@ pub fn check_c12(prop: &str, tier: &str) -> i32 {
                         mb[pos] ^= 1 << bit;
                         let m = (ct.0.clone(), mb);
                         match catch_unwind(AssertUnwindSafe(|| PkeAc::<KL, E>::decrypt(cc, &k_auth, &m))) {
-                            Ok(Ok(Some(_))) | Ok(Ok(None)) => fail(&mut run, "C12.d", format!("PKE {n} bytes with bit {bit} of byte {pos} altered: not an error")),
+                            Ok(Ok(Some(_))) | Ok(Ok(None)) => fail(run, "C12.d", format!("PKE {n} bytes with bit {bit} of byte {pos} altered: not an error")),
                             Ok(Err(_)) => nontrivial += 1,
-                            Err(_) => fail(&mut run, "C12.d", format!("PKE {n} bytes altered: panic")),
+                            Err(_) => fail(run, "C12.d", format!("PKE {n} bytes altered: panic")),
                         }
                     }
                 }
@@ -1033,7 +1032,7 @@ pub fn check_c12(prop: &str, tier: &str) -> i32 {
     for md in &mds {
         for ad_gen in ads {
             let Ok((secret, hdr)) = EncryptedHeader::generate(cc, &mpk0, &p("A::x"), md.as_deref(), ad_gen) else {
-                fail(&mut run, "C12.a", format!("EncryptedHeader::generate(md {:?}, ad {:?}) failed", md.as_ref().map(Vec::len), ad_gen.map(<[u8]>::len)));
+                fail(run, "C12.a", format!("EncryptedHeader::generate(md {:?}, ad {:?}) failed", md.as_ref().map(Vec::len), ad_gen.map(<[u8]>::len)));
                 continue;
             };
             // wire form round-trip is part of the statement (absent == empty)
@@ -1044,17 +1043,17 @@ pub fn check_c12(prop: &str, tier: &str) -> i32 {
                     let desc = format!("header md={:?} ad_gen={:?} ad_dec={:?} key={kn}", md.as_ref().map(Vec::len), ad_gen.map(<[u8]>::len), ad_dec.map(<[u8]>::len));
                     let r = catch_unwind(AssertUnwindSafe(|| hdr.decrypt(cc, k, ad_dec)));
                     match r {
-                        Err(_) => fail(&mut run, "C12.d", format!("{desc}: panic")),
+                        Err(_) => fail(run, "C12.d", format!("{desc}: panic")),
                         Ok(Ok(None)) => {
                             if want {
-                                fail(&mut run, "C12.a", format!("{desc}: 'not authorised'"));
+                                fail(run, "C12.a", format!("{desc}: 'not authorised'"));
                             } else {
                                 nontrivial += 1;
                             }
                         }
                         Ok(Ok(Some(c))) => {
                             if !want {
-                                fail(&mut run, "C12.b", format!("{desc}: decrypts"));
+                                fail(run, "C12.b", format!("{desc}: decrypts"));
                             } else if !same(ad_gen, ad_dec) {
                                 // authentication data whose content differs must be an error
                                 let md_absent = md.as_ref().map_or(true, Vec::is_empty) && hdr.encrypted_metadata.is_none();
@@ -1064,21 +1063,21 @@ pub fn check_c12(prop: &str, tier: &str) -> i32 {
                                         run.report(Some("C12-ad-unbound-without-metadata"), "C12.c", &format!("{desc}: accepted although the authentication data differs"), json!({"engine": "dem", "case": desc}));
                                     }
                                 } else {
-                                    fail(&mut run, "C12.c", format!("{desc}: accepted although the authentication data differs"));
+                                    fail(run, "C12.c", format!("{desc}: accepted although the authentication data differs"));
                                 }
                             } else if c.secret.to_vec() != secret.to_vec() {
-                                fail(&mut run, "C12.a", format!("{desc}: secret differs from the one generate returned"));
+                                fail(run, "C12.a", format!("{desc}: secret differs from the one generate returned"));
                             } else if c.metadata.clone().unwrap_or_default() != md.clone().unwrap_or_default() {
-                                fail(&mut run, "C12.a", format!("{desc}: metadata differs"));
+                                fail(run, "C12.a", format!("{desc}: metadata differs"));
                             } else {
                                 nontrivial += 1;
                             }
                         }
                         Ok(Err(e)) => {
                             if want && same(ad_gen, ad_dec) {
-                                fail(&mut run, "C12.a", format!("{desc}: Err({e})"));
+                                fail(run, "C12.a", format!("{desc}: Err({e})"));
                             } else if !want {
-                                fail(&mut run, "C12.b", format!("{desc}: Err({e}) instead of 'not authorised'"));
+                                fail(run, "C12.b", format!("{desc}: Err({e}) instead of 'not authorised'"));
                             } else {
                                 nontrivial += 1;
                             }
@@ -1093,9 +1092,9 @@ pub fn check_c12(prop: &str, tier: &str) -> i32 {
                         cases += 1;
                         let h = EncryptedHeader { encapsulation: hdr.encapsulation.clone(), encrypted_metadata: Some(em[..c].to_vec()) };
                         match catch_unwind(AssertUnwindSafe(|| h.decrypt(cc, &k_auth, ad_gen))) {
-                            Ok(Ok(_)) => fail(&mut run, "C12.d", format!("header metadata ({} bytes) truncated to {c}: not an error", em.len())),
+                            Ok(Ok(_)) => fail(run, "C12.d", format!("header metadata ({} bytes) truncated to {c}: not an error", em.len())),
                             Ok(Err(_)) => nontrivial += 1,
-                            Err(_) => fail(&mut run, "C12.d", format!("header metadata truncated to {c}: panic")),
+                            Err(_) => fail(run, "C12.d", format!("header metadata truncated to {c}: panic")),
                         }
                     }
                     for pos in 0..em.len() {
@@ -1105,9 +1104,9 @@ pub fn check_c12(prop: &str, tier: &str) -> i32 {
                             m[pos] ^= 1 << bit;
                             let h = EncryptedHeader { encapsulation: hdr.encapsulation.clone(), encrypted_metadata: Some(m) };
                             match catch_unwind(AssertUnwindSafe(|| h.decrypt(cc, &k_auth, ad_gen))) {
-                                Ok(Ok(_)) => fail(&mut run, "C12.d", format!("header metadata with bit {bit} of byte {pos} altered: not an error")),
+                                Ok(Ok(_)) => fail(run, "C12.d", format!("header metadata with bit {bit} of byte {pos} altered: not an error")),
                                 Ok(Err(_)) => nontrivial += 1,
-                                Err(_) => fail(&mut run, "C12.d", "header metadata altered: panic".to_string()),
+                                Err(_) => fail(run, "C12.d", "header metadata altered: panic".to_string()),
                             }
                         }
                     }
@@ -1128,7 +1127,6 @@ pub fn check_c12(prop: &str, tier: &str) -> i32 {
     if nontrivial == 0 {
         machinery("C12 driver is vacuous");
     }
-    run.finish()
 }
 
 pub fn replay_forge(input_hex: &str) -> i32 {
